@@ -99,11 +99,13 @@ def analyse():
                             g.add(a.asname or a.name)
         globals_of[mname] = g
     fns = {}
+    class_of = {}          # function qual -> qualified class name (methods only)
+    props = set()          # property getters
 
     def add_fn(qual, mname, node, params):
         fns[qual] = FnInfo(qual, mname, node, params)
 
-    def collect(mname, body, prefix):
+    def collect(mname, body, prefix, cls=None):
         for st in body:
             if isinstance(st, (ast.FunctionDef, ast.AsyncFunctionDef)):
                 params = [a.arg for a in st.args.posonlyargs + st.args.args + st.args.kwonlyargs]
@@ -111,13 +113,22 @@ def analyse():
                     params.append(st.args.vararg.arg)
                 if st.args.kwarg:
                     params.append(st.args.kwarg.arg)
-                add_fn(prefix + st.name, mname, st, params)
-                collect(mname, st.body, prefix + st.name + ".")
+                qual = prefix + st.name
+                decs = [(d.attr if isinstance(d, ast.Attribute) else getattr(d, "id", "?"))
+                        for d in [(x.func if isinstance(x, ast.Call) else x) for x in st.decorator_list]]
+                if "setter" in decs:
+                    qual += ".setter"
+                elif "property" in decs and cls:
+                    props.add(qual)
+                add_fn(qual, mname, st, params)
+                if cls:
+                    class_of[qual] = cls
+                collect(mname, st.body, qual + ".", None)
             elif isinstance(st, ast.ClassDef):
-                collect(mname, st.body, prefix + st.name + ".")
+                collect(mname, st.body, prefix + st.name + ".", prefix + st.name)
             elif isinstance(st, (ast.If, ast.Try, ast.With, ast.For, ast.While)):
                 for fld in ("body", "orelse", "finalbody"):
-                    collect(mname, getattr(st, fld, []) or [], prefix)
+                    collect(mname, getattr(st, fld, []) or [], prefix, cls)
     for mname, tree in mods.items():
         collect(mname, tree.body, mname + ".")
         # module-level code as a pseudo function
@@ -127,8 +138,12 @@ def analyse():
                                  decorator_list=[])
         add_fn(mname + ".<module>", mname, pseudo, [])
 
-    def resolve(mname, func_node, local_fns):
+    def resolve(mname, func_node, local_fns, cls=None):
         """qualified name of a package function a call refers to, or None"""
+        if (cls and isinstance(func_node, ast.Attribute) and isinstance(func_node.value, ast.Name)
+                and func_node.value.id == "self" and cls + "." + func_node.attr in fns
+                and cls + "." + func_node.attr not in props):
+            return cls + "." + func_node.attr
         if isinstance(func_node, ast.Name):
             n = func_node.id
             if n in local_fns:
@@ -150,6 +165,10 @@ def analyse():
                 dotted = ".".join(reversed(parts))
                 if dotted in fns:
                     return dotted
+                modp, _, leaf = dotted.rpartition(".")
+                q = imported.get((modp, leaf))          # a name re-exported by another module
+                if q and q in fns:
+                    return q
                 head = imported.get((mname, parts[-1]))
                 if head:
                     cand = head + "." + ".".join(reversed(parts[:-1]))
@@ -257,10 +276,13 @@ def analyse():
                             mark(classify(root_name(sub)), "store through %s" % root_name(sub))
             elif isinstance(n, ast.Call):
                 f = n.func
-                callee = resolve(mname, f, local_fns)
+                callee = resolve(mname, f, local_fns, class_of.get(info.qual))
                 if callee is not None:
                     args = [root_name(a) if isinstance(a, (ast.Name, ast.Attribute, ast.Subscript)) else None
                             for a in n.args]
+                    if (isinstance(f, ast.Attribute) and isinstance(f.value, ast.Name) and f.value.id == "self"
+                            and class_of.get(callee) and fns[callee].params[:1] == ["self"]):
+                        args = ["self"] + args          # the receiver is the callee's first parameter
                     kw = {k.arg: (root_name(k.value) if isinstance(k.value, (ast.Name, ast.Attribute,
                                                                                ast.Subscript)) else None)
                           for k in n.keywords if k.arg}
@@ -303,6 +325,11 @@ def analyse():
                         info.notes.append("call %s" % f.id)
             elif isinstance(n, ast.Attribute):
                 r = root_name(n)
+                cls_ = class_of.get(info.qual)
+                if (cls_ and isinstance(n.value, ast.Name) and n.value.id == "self"
+                        and isinstance(n.ctx, ast.Load) and cls_ + "." + n.attr in props
+                        and cls_ + "." + n.attr != info.qual):
+                    info.calls.append((cls_ + "." + n.attr, [classify("self")], {}))   # property read
                 if r == "os" and n.attr in ("environ", "getenv"):
                     info.effects.add("readsEnv")
                 if r == "sys" and n.attr.startswith("std"):
@@ -394,6 +421,19 @@ def generate():
                     "astral.hours_to_time", "astral.time_to_hours", "astral.time_to_seconds",
                     "astral.minutes_to_timedelta", "astral.now", "astral.today"))
                 and not n.endswith("<module>") and n not in ("astral.now", "astral.today")),
+            "",
+            "/-- every method of `Location` that is a query: not `__init__`, not a property setter -/",
+            "def locationQueryFns : List Nat := [%s]" % ", ".join(
+                str(idx[n]) for n in names
+                if n.startswith("astral.location.Location.") and not n.endswith(".setter")
+                and not n.endswith(".__init__")),
+            "",
+            "/-- the coordinate front end: dms_to_float and the validating `__setattr__`s -/",
+            "def coordFns : List Nat := [%s]" % ", ".join(
+                str(idx[n]) for n in names
+                if n in ("astral.dms_to_float", "astral.Observer.__setattr__", "astral.LocationInfo.__setattr__",
+                         "astral.LocationInfo.observer", "astral.LocationInfo.tzinfo",
+                         "astral.LocationInfo.timezone_group")),
             "", "end Astral.Gen", ""]
     text = "\n".join(out)
     os.makedirs(os.path.dirname(OUT), exist_ok=True)
